@@ -451,6 +451,14 @@ fn matches_expected(got: &Value, want: &Value, path: &str) -> Result<(), String>
                 let by_key = order == "_count";
                 for (i, wbk) in wb.iter().enumerate() {
                     let g = if by_key { gb.iter().find(|g| keys_equal(&g["key"], &wbk["key"])).ok_or(format!("{path}: bucket {} missing", wbk["key"]))? } else { &gb[i] };
+                    if wbk["doc_count"].as_u64() == Some(0) {
+                        // an empty bucket (a gap of a histogram, a zero-count term): what its sub-aggregations
+                        // report is not specified; key and count are
+                        if !keys_equal(&g["key"], &wbk["key"]) || g["doc_count"].as_u64() != Some(0) {
+                            return Err(format!("{path}/bucket[{}]: got key {} count {}, direct computation has an empty bucket", wbk["key"], g["key"], g["doc_count"]));
+                        }
+                        continue;
+                    }
                     matches_expected(g, wbk, &format!("{path}/bucket[{}]", wbk["key"]))?;
                 }
                 if by_key {
@@ -461,6 +469,13 @@ fn matches_expected(got: &Value, want: &Value, path: &str) -> Result<(), String>
                 }
                 if let Some(s) = w.get("sum_other_doc_count") {
                     matches_expected(got.get("sum_other_doc_count").unwrap_or(&Value::Null), s, &format!("{path}/sum_other_doc_count"))?;
+                }
+                return Ok(());
+            }
+            if w.get("doc_count").and_then(|c| c.as_u64()) == Some(0) && w.contains_key("key") {
+                // an empty bucket (a gap of a histogram): what its sub-aggregations report is not specified
+                if !keys_equal(got.get("key").unwrap_or(&Value::Null), &w["key"]) || got.get("doc_count").and_then(|c| c.as_u64()) != Some(0) {
+                    return Err(format!("{path}: got {got}, direct computation has the empty bucket {}", w["key"]));
                 }
                 return Ok(());
             }
